@@ -2,6 +2,8 @@
 # usage: tools/seed_sweep.sh [ID_k ...]  -- for each seeded change: apply to /repo, run the check of its property, undo. Prints one line per seed.
 cd /verif
 SEEDS="$@"
+# evidence files are rewritten by every check run: keep the clean-tree ones aside and put them back afterwards
+rm -rf /tmp/evidence_keep && cp -r /verif/evidence /tmp/evidence_keep
 [ -z "$SEEDS" ] && SEEDS=$(ls seeded)
 for s in $SEEDS; do
   pid=$(echo $s | cut -d_ -f1)
@@ -12,3 +14,4 @@ for s in $SEEDS; do
   git -C /repo checkout -- .
   echo "$s: exit=$rc $(( $(date +%s) - t0 ))s :: $(grep -m1 -E 'VIOLATION|UNDECIDED|^OK' /tmp/seed_$s.out | cut -c1-220)"
 done
+rm -rf /verif/evidence && mv /tmp/evidence_keep /verif/evidence
